@@ -1,12 +1,14 @@
 (* Wire-level wrappers of property C14: decode arguments from sx, run the model, encode.
    Dispatch.v routes a block of unit numbers here; [k] is the offset inside the block.
 
-   value   : (0) None | (1 z) int | (2 c) candidate | (3 c..) Tie | (4 v..) list | (5 (key v)..) dict
+   value   : (0) None | (1 z) int | (2 c) candidate | (3 c..) Tie | (4 v..) list | (5 (key v)..) dict | (6 num den) Fraction
    tree    : (0 l kind) leaf | (1 c e) PreConverted | (2 e c) PostConverted | (3 e n) FixedSeatCount
              | (4 el e d) Conditioned | (5 e a) ByConstituency | (6 e ae) ByConstituency(distributor apportioner)
              | (7 e a) PreApportioned | (8 e ae) | (9 e) RemovedApportionment | (10 ov al) ByParty | (11 ov)
              | (12 (e..) d) MultistageDistributor | (13 m b) TieBreaking | (14 p) PartyListEvaluator closed
-             | (15 p le c?) open ;  a = (0) | (1 n) | (2 dict-value)
+             | (15 p le c?) open | (16 e) VotingSystem | (17 (e..) (q..) d) UnusedVotesDistributor
+             | (18 c e) AdjustedSeatCount(calculator c) | (19 pe e) AdjustedSeatCount(AllowOverhang(pe))
+             | (20 pe e fuel) AdjustedSeatCount(LevelOverhang(pe)) ;  a = (0) | (1 n) | (2 dict-value)
    kwrec   : six options  () | (v)   in the order n_seats prev_gains max_seats party_lists list_votes candidate_list
    oracle  : leaf table ((l votes (opt..) result)..), converter table ((c value result)..);
              result = (0 v) | (1 code)
@@ -27,6 +29,7 @@ Fixpoint dec_val (s : sx) : option val :=
   match s with
   | L [A 0] => Some VNone
   | L [A 1; A z] => Some (VInt z)
+  | L [A 6; A n; A (Zpos d)] => Some (of_q (n # d))
   | L [A 2; A (Zpos c)] => Some (VKey (KC c))
   | L (A 3 :: cs) => match opt_map as_pos cs with Some t => Some (VKey (KT t)) | None => None end
   | L (A 4 :: vs) =>
@@ -57,6 +60,7 @@ Fixpoint enc_val (v : val) : sx :=
   | VKey k => enc_key k
   | VList l => L (A 4 :: map enc_val l)
   | VDict d => L (A 5 :: map (fun kv => L [enc_key (fst kv); enc_val (snd kv)]) d)
+  | VRat q => L [A 6; A (Qnum q); A (Zpos (Qden q))]
   end.
 
 Fixpoint val_eqb (a b : val) : bool :=
@@ -78,6 +82,7 @@ Fixpoint val_eqb (a b : val) : bool :=
          | (k, p) :: x', (k', q) :: y' => key_eqb k k' && val_eqb p q && go x' y'
          | _, _ => false
          end) x y
+  | VRat x, VRat y => Qeq_bool x y
   | _, _ => false
   end.
 
@@ -134,6 +139,18 @@ Fixpoint dec_ev (s : sx) : option ev :=
   | L [A 15; p; le; L []] => match dec_ev p, dec_ev le with Some p', Some l' => Some (PListO p' l' None) | _, _ => None end
   | L [A 15; p; le; L [A (Zpos c)]] =>
       match dec_ev p, dec_ev le with Some p', Some l' => Some (PListO p' l' (Some c)) | _, _ => None end
+  | L [A 16; e] => match dec_ev e with Some e' => Some (VSys e') | None => None end
+  | L [A 17; L rs; qs; d] =>
+      match (fix go (l : list sx) : option (list ev) :=
+               match l with
+               | [] => Some []
+               | x :: r => match dec_ev x, go r with Some e, Some es => Some (e :: es) | _, _ => None end
+               end) rs, as_listof as_pos qs, as_nat d with
+      | Some rs', Some qs', Some d' => Some (Unused rs' qs' d') | _, _, _ => None end
+  | L [A 18; A (Zpos c); e] => match dec_ev e with Some e' => Some (AdjLeaf c e') | None => None end
+  | L [A 19; pe; e] => match dec_ev pe, dec_ev e with Some p', Some e' => Some (AdjAllow p' e') | _, _ => None end
+  | L [A 20; pe; e; f] => match dec_ev pe, dec_ev e, as_nat f with
+                          | Some p', Some e', Some f' => Some (AdjLevel p' e' f') | _, _, _ => None end
   | _ => None
   end.
 
@@ -211,9 +228,11 @@ Fixpoint node_info (t : ev) : list sx :=
   let me := L [of_bool (acc_seats t); of_bool (acc_prev t); enc_sig (sig_of t)] in
   me :: match t with
         | Leaf _ _ => []
-        | PreConv _ e | PostConv e _ | Fixed e _ | RemApp e | PreApp e _ | ByCons e _ | ByPartyS e | PListC e => node_info e
-        | Cond a b _ | ByConsD a b | PreAppD a b | ByParty a b | TieBr a b | PListO a b _ => node_info a ++ node_info b
-        | Multi rs _ => flat_map node_info rs
+        | PreConv _ e | PostConv e _ | Fixed e _ | RemApp e | PreApp e _ | ByCons e _ | ByPartyS e | PListC e
+        | VSys e | AdjLeaf _ e => node_info e
+        | Cond a b _ | ByConsD a b | PreAppD a b | ByParty a b | TieBr a b | PListO a b _
+        | AdjAllow a b | AdjLevel a b _ => node_info a ++ node_info b
+        | Multi rs _ | Unused rs _ _ => flat_map node_info rs
         end.
 
 Definition u_c14 (k : Z) (a : sx) : sx :=
@@ -239,11 +258,12 @@ Definition u_c14 (k : Z) (a : sx) : sx :=
       | _ => bad_input
       end
   | 2 =>
-      (* (tree kwrec) -> (wt faithful fits (node-info..)) *)
+      (* (tree kwrec) -> (wt faithful fits-and-seat_fits (node-info..) seated) *)
       match a with
       | L [t; sa] =>
           match dec_ev t, dec_kwrec sa with
-          | Some t', Some sa' => ok (L [of_bool (wt t'); of_bool (faithful t'); of_bool (fits t' sa'); L (node_info t')])
+          | Some t', Some sa' => ok (L [of_bool (wt t'); of_bool (faithful t'); of_bool (fits t' sa' && seat_fits t' sa');
+                                        L (node_info t'); of_bool (seated t')])
           | _, _ => bad_input
           end
       | _ => bad_input
